@@ -819,7 +819,12 @@ func (e *vEnv) serve(req *http.Request) (res *vResult) {
 				res.Stack = string(debug.Stack())
 			}
 		}()
-		e.p.ServeHTTP(rw, req)
+		// the handler the HTTP server is given (oauthproxy.go setupServer)
+		var h http.Handler = e.p
+		if e.opts.AllowQuerySemicolons {
+			h = http.AllowQuerySemicolons(h)
+		}
+		h.ServeHTTP(rw, req)
 	}()
 	res.Status = rw.Code
 	res.Header = rw.Header()
